@@ -77,6 +77,9 @@ struct LayerM {
     fill: Option<CellV>,
     /// sparse content, applied in order
     cells: Vec<CellM>,
+    /// when set, (ox, oy) is a pending preview (drag) offset on top of this stored base offset: Layer::get_offset() reports (ox, oy)
+    #[serde(default)]
+    base: Option<(i8, i8)>,
 }
 
 #[derive(Clone, Debug, Hash, Serialize, Deserialize)]
@@ -162,7 +165,13 @@ fn build_layer(m: &LayerM, page: usize) -> Layer {
             l.lines.pop();
         }
     }
-    l.set_offset((m.ox as i32, m.oy as i32));
+    match m.base {
+        None => l.set_offset((m.ox as i32, m.oy as i32)),
+        Some((bx, by)) => {
+            l.set_offset((bx as i32, by as i32));
+            l.set_preview_offset(Some(icy_engine::Position::new(m.ox as i32, m.oy as i32)));
+        }
+    }
     l.properties.is_visible = m.visible;
     l
 }
@@ -562,8 +571,11 @@ fn layer(max_cells: usize) -> BoxedStrategy<LayerM> {
     let props = (prop_oneof![2 => Just(0u8), 1 => Just(1u8), 1 => Just(2u8)], prop::bool::weighted(0.55), prop::bool::weighted(0.85), any::<bool>());
     let fill = prop_oneof![3 => Just(None), 1 => cell_value().prop_map(Some)];
     let cells = prop::collection::vec((0u8..12, 0u8..8, cell_value()), 0..=max_cells);
-    (geometry, props, fill, cells)
-        .prop_map(|((w, h, ox, oy), (mode, alpha, visible, compact), fill, raw)| LayerM {
+    // 15% of the layers carry a pending preview offset: the stored base offset differs from the reported one by a small delta
+    let base_delta = prop_oneof![17 => Just(None), 3 => (-3i8..=3, -3i8..=3).prop_map(Some)];
+    (geometry, props, fill, cells, base_delta)
+        .prop_map(|((w, h, ox, oy), (mode, alpha, visible, compact), fill, raw, bd)| LayerM {
+            base: bd.map(|(a, b)| (ox + a, oy + b)),
             w,
             h,
             ox,
@@ -618,12 +630,12 @@ fn tiny_layer(code: u64) -> LayerM {
     let visible = rest % 2 == 0;
     let alpha = (rest / 2) % 2 == 0;
     let mode = (rest / 4) as u8;
-    LayerM { w: 1, h: 1, ox: 0, oy: 0, mode, alpha, visible, compact: false, fill: None, cells: tiny_cell(kind).map(|v| CellM { x: 0, y: 0, v }).into_iter().collect() }
+    LayerM { w: 1, h: 1, ox: 0, oy: 0, mode, alpha, visible, compact: false, fill: None, cells: tiny_cell(kind).map(|v| CellM { x: 0, y: 0, v }).into_iter().collect(), base: None }
 }
 
 fn tiny_case(i: u64) -> Case {
     let layers = vec![tiny_layer(i % TINY_PER_LAYER), tiny_layer(i / TINY_PER_LAYER % TINY_PER_LAYER), tiny_layer(i / TINY_PER_LAYER / TINY_PER_LAYER)];
-    let one = |ch, fg, bg, mode, alpha| LayerM { w: 1, h: 1, ox: 0, oy: 0, mode, alpha, visible: true, compact: false, fill: None, cells: vec![CellM { x: 0, y: 0, v: CellV { ch, fg, bg, attr: 0, font: 0 } }] };
+    let one = |ch, fg, bg, mode, alpha| LayerM { w: 1, h: 1, ox: 0, oy: 0, mode, alpha, visible: true, compact: false, fill: None, cells: vec![CellM { x: 0, y: 0, v: CellV { ch, fg, bg, attr: 0, font: 0 } }], base: None };
     Case { font_page: 0, terminal: false, layers, extra: one('E', 14, 6, 0, true), alt: vec![one('Z', 1, 3, 0, false)], dx: 1, dy: -1 }
 }
 
